@@ -42,7 +42,8 @@ impl Check for C03 {
     }
 
     fn rule(&self) -> String {
-        "seeded loop- and growth-biased Push programs (block duplication, exec dup/swap/push, nesting <= 8 generated structurally plus the whole program wrapped 65..=1200 blocks deep in 1/200 of the runs, i64/f64 extremes, \
+        "ENUMERATED: every int / float instruction on every ordered pair of boundary literals, and every program of <= 5 nodes built \
+         from <= 2 distinct instructions (one of them exec-structural); SEEDED: loop- and growth-biased Push programs (block duplication, exec dup/swap/push, nesting <= 8 generated structurally plus the whole program wrapped 65..=1200 blocks deep in 1/200 of the runs, i64/f64 extremes, \
          capacities 0..=12 / 64, all inputs bound) run harness-stepped (<= 400 steps + nesting depth) and by the real loop for a sweep of \
          step limits (0..=k for a seeded k <= 60, T-1, T, T+1, 10^4, usize::MAX); plus, in 1/700 of the runs, LONG executions: a self-re-creating loop [exec.dup [body exec.dup]] run by the real loop for 1000..=30000 steps (some bodies print > 64 KiB per step) and compared with a model-only run at the end, and ONE very long evaluation of 6*10^6 (quick) / 2*10^7 (thorough) steps (evaluation must not depend on elapsed time); monitored: returns (catch_unwind + watchdog), \
          Err only for overflow and only where the model says a stack would overflow, every stack size <= its maximum at every \
